@@ -52,7 +52,10 @@ class Contract:
                  returns=None, raises=None, call_ghost=None, gen=None, notes="", obligations_for=None,
                  assumed=None, after_loop=None, hints=None, rt_only=None, ghost_vars=None, ghost_after=None,
                  exit_hints=None, vec_counts=None, after_assign=None, abstract_mul=False, entry_hints=None,
-                 unroll=None, fields=None, fixed=None, fragment=None, call_hints=None):
+                 unroll=None, fields=None, fixed=None, fragment=None, call_hints=None, focus=None):
+        # focus: {substring of an obligation name: [spec names]} extra spec families kept by the relevance filter of
+        # the first (cheap) solver attempt; purely a performance hint (all hypotheses are used on the second attempt)
+        self.focus = dict(focus or {})
         # call_hints: {callee: [lemma calls]} facts added right after each call to `callee` (after the ghost updates)
         self.call_hints = dict(call_hints or {})
         # fragment: {"loop": k} verify only the k-th loop of the function (a top-level statement of its body) in
